@@ -76,6 +76,7 @@ type vSim struct {
 	// receives: the recvErrAt-th Receive (0-based; -1 none) fails with a non-transient errno
 	recvErrAt int
 	recvErrno syscall.Errno
+	alwaysOK  bool // every request is acknowledged with errno 0 (long runs: no case split per request)
 }
 
 func newSim() *vSim {
@@ -106,7 +107,11 @@ func (s *vSim) Send(msg syscall.NetlinkMessage) (uint32, error) {
 	idx := len(s.reqs)
 	s.reqs = append(s.reqs, rq)
 	if s.plain {
-		s.planAck(rq, idx, vErrnoChoice())
+		if s.alwaysOK {
+			s.planAck(rq, idx, 0)
+		} else {
+			s.planAck(rq, idx, vErrnoChoice())
+		}
 		return seq, nil
 	}
 	// unsolicited records first
@@ -811,6 +816,47 @@ func vCheckVerdictC17(rq *vRequest, err error) {
 		vAssert(err == nil, "C17/waiting-setter-failed-although-acked")
 	} else {
 		vAssert(err != nil, "C17/waiting-setter-succeeded-without-ack")
+	}
+}
+
+func init() { vEntries["VH_ClientManyNoWait"] = VH_ClientManyNoWait }
+
+// VH_ClientManyNoWait: a long run of NoWait setters on one client (the count is a parameter), then
+// WaitForPendingACKs: every request is a well-formed AUDIT_SET with REQUEST|ACK, and every ACK is
+// consumed exactly once.
+func VH_ClientManyNoWait() {
+	s := newSim()
+	s.plain = true
+	s.alwaysOK = true
+	c := &AuditClient{Netlink: s}
+	n := vParam("count", 40)
+	for i := 0; i < n; i++ {
+		var err error
+		switch i % 3 {
+		case 0:
+			err = c.SetEnabled(i%2 == 0, NoWait)
+		case 1:
+			err = c.SetRateLimit(uint32(i), NoWait)
+		case 2:
+			err = c.SetBacklogLimit(uint32(1000+i), NoWait)
+		}
+		vAssert(err == nil, "C17/nowait-send-failed")
+	}
+	vAssert(len(s.reqs) == n, "C16/exactly-one-request")
+	anyErr := false
+	for _, rq := range s.reqs {
+		vAssert(rq.typ == vUAPI_AUDIT_SET, "C16/set-request-type")
+		vAssert(rq.flags == vNLM_F_REQUEST|vNLM_F_ACK, "C16/set-request-flags")
+		vAssert(len(rq.data) == 4*vStatusWords, "C16/set-payload-size")
+		anyErr = vOr(anyErr, rq.errno != 0)
+	}
+	if anyErr {
+		return // the run of ACKs ends at the first kernel error (VH_ClientHistory's subject)
+	}
+	err := c.WaitForPendingACKs()
+	vAssert(err == nil, "C17/wait-returned-error-without-kernel-error")
+	for _, rq := range s.reqs {
+		vAssert(rq.ackTaken == 1, "C17/ack-not-consumed-exactly-once")
 	}
 }
 
